@@ -238,14 +238,24 @@ def oracle(seed, tier):
     for wi in range(budget(tier, 10, 100)):
         n = rng.choice([1, 2, 3])
         depths = sorted(rng.sample([100e3, 200e3, 300e3, 450e3, 600e3], n))
-        cen = [[rng.choice([0, 50e3, -30e3]), rng.choice([0, 20e3, -60e3])] for _ in depths]
-        sma = [rng.choice([50e3, 80e3, 120e3]) for _ in depths]
+        # every other world is spherical: centres in degrees, possibly written beyond +-180 or next to the date line (the library must use the description of the query
+        # longitude closest to the centre, in the body AND in the head above the first cross section); semi-major axes in degrees
+        sph = wi % 2 == 1
+        if sph:
+            lon0, lat0 = rng.choice([10, 179.5, -179.75, 200, -340, -181, 355, -90]), rng.choice([0, 20, -35])
+            cen = [[lon0 + rng.choice([0, 0.5, -0.3]), lat0 + rng.choice([0, 0.2, -0.6])] for _ in depths]
+            sma = [rng.choice([0.5, 0.8, 1.2]) for _ in depths]
+        else:
+            cen = [[rng.choice([0, 50e3, -30e3]), rng.choice([0, 20e3, -60e3])] for _ in depths]
+            sma = [rng.choice([50e3, 80e3, 120e3]) for _ in depths]
         ecc = [rng.choice([0, 0.5, 0.75]) for _ in depths]
         rot = [rng.choice([0, 30, 90, 170, 350]) for _ in depths]
         mind, maxd = rng.choice([0, 20e3, 50e3]), rng.choice([700e3, 800e3])
         f = {"model": "plume", "name": "p", "coordinates": cen, "cross section depths": depths, "semi-major axis": sma, "eccentricity": ecc, "rotation angles": rot,
              "min depth": mind, "max depth": maxd, "composition models": [{"model": "uniform", "compositions": [0]}]}
         w = {"version": "1.1", "features": [f]}
+        if sph:
+            w["coordinate system"] = {"model": "spherical", "depth method": "starting point"}
         path = os.path.join(wdir, "d_%d.wb" % wi)
         json.dump(w, open(path, "w"))
         lines, meta = ["world w %s -" % path], [None]
@@ -265,11 +275,16 @@ def oracle(seed, tier):
             return ([(1 - fr) * cen[k][0] + fr * cen[k + 1][0], (1 - fr) * cen[k][1] + fr * cen[k + 1][1]],
                     (1 - fr) * sma[k] + fr * sma[k + 1], (1 - fr) * ecc[k] + fr * ecc[k + 1], th, None)
         for _ in range(budget(tier, 60, 150)):
-            d = rng.choice([rng.uniform(mind - 10e3, maxd + 10e3), rng.choice(depths), mind, maxd, mind + 1e3])
-            x, y = rng.uniform(-200e3, 200e3), rng.uniform(-200e3, 200e3)
+            d = rng.choice([rng.uniform(mind - 10e3, maxd + 10e3), rng.choice(depths), mind, maxd, mind + 1e3, rng.uniform(mind, depths[0]), rng.uniform(mind, depths[0])])
             c, a, e, th, tip = ellipse_at(d)
-            xr = (x - c[0]) * math.cos(th) + (y - c[1]) * math.sin(th)
-            yr = -(x - c[0]) * math.sin(th) + (y - c[1]) * math.cos(th)
+            if sph:
+                x, y = cen[0][0] + rng.uniform(-2, 2), cen[0][1] + rng.uniform(-2, 2)
+                dx = (x - c[0] + 180.0) % 360.0 - 180.0            # the same point of the sphere whatever alias the centre was written in
+            else:
+                x, y = rng.uniform(-200e3, 200e3), rng.uniform(-200e3, 200e3)
+                dx = x - c[0]
+            xr = dx * math.cos(th) + (y - c[1]) * math.sin(th)
+            yr = -dx * math.sin(th) + (y - c[1]) * math.cos(th)
             b = a * math.sqrt(1 - e * e)
             if tip:
                 cc = depths[0] - mind
@@ -279,7 +294,14 @@ def oracle(seed, tier):
             if abs(val - 1) < 1e-6 or abs(d - mind) < 1e-3 and d != mind or abs(d - maxd) < 1e-3 and d != maxd:
                 continue
             exp = mind <= d <= maxd and val <= 1
-            lines.append(q3("w", [x, y, 1000e3 - d], d, [(4, 0, 0)])); meta.append((x, y, d, exp))
+            if sph:
+                rr = 6371000.0 - d
+                lo_, la_ = math.radians(x), math.radians(y)
+                cl_ = rr * math.sin(0.5 * math.pi - la_)
+                p3 = [cl_ * math.cos(lo_), cl_ * math.sin(lo_), rr * math.cos(0.5 * math.pi - la_)]
+            else:
+                p3 = [x, y, 1000e3 - d]
+            lines.append(q3("w", p3, d, [(4, 0, 0)])); meta.append((x, y, d, exp))
         rc, out, err = proto.run_harness(lines)
         if rc != 0 or len(out) != len(lines):
             viol.append({"what": "library crashed", "world_json": w}); continue
